@@ -26,7 +26,7 @@ package nlp
 
 //@ func NewTFIDFSearcher
 //@   modifies nothing
-//@   ensures[nlp.new-tfidf] result != nil && fresh(result) && wfTFIDF(result)
+//@   ensures[nlp.new-tfidf] result != nil && fresh(result) && wfTFIDF(result) && result.commands == commands
 
 //@ pure func vocabOK(s *TFIDFSearcher, n int) bool = s.vocabulary != nil && fresh(s.vocabulary) && (forall w string :: (w in s.vocabulary) ==> 0 <= s.vocabulary[w] && s.vocabulary[w] < n)
 //@ func (*TFIDFSearcher).buildIndex
@@ -56,3 +56,25 @@ package nlp
 //@   invariant queryTermCounts != nil && fresh(queryTermCounts) && queryVector != nil && fresh(queryVector) && (forall k int :: (k in queryTermCounts) ==> 0 <= k && k < len(s.idf))
 //@ loop 3
 //@   invariant forall k int :: 0 <= k && k < len(results) ==> results[k].Similarity > 0.0 && 0 <= results[k].CommandIndex && results[k].CommandIndex < len(s.commands)
+
+// removeDuplicates (C06): a fresh list, without duplicates, with exactly the input's elements.
+//@ func removeDuplicates
+//@   modifies nothing
+//@   ensures[C06.dedup-fresh] fresh(result) && len(result) <= len(slice)
+//@   ensures[C06.dedup-nodup] forall a, b int :: 0 <= a && a < b && b < len(result) ==> result[a] != result[b]
+//@   ensures[C06.dedup-subset] forall a int :: 0 <= a && a < len(result) ==> (exists k int :: 0 <= k && k < len(slice) && slice[k] == result[a])
+//@   ensures[C06.dedup-superset] forall k int :: 0 <= k && k < len(slice) ==> (exists a int :: 0 <= a && a < len(result) && result[a] == slice[k])
+//@ loop 1
+//@   invariant seen != nil && fresh(seen) && len(result) <= $i
+//@   invariant forall a int :: 0 <= a && a < len(result) ==> (result[a] in seen) && seen[result[a]] && (exists k int :: 0 <= k && k < $i && slice[k] == result[a])
+//@   invariant forall q string :: (q in seen) && seen[q] ==> (exists a int :: 0 <= a && a < len(result) && result[a] == q)
+//@   invariant forall a, b int :: 0 <= a && a < b && b < len(result) ==> result[a] != result[b]
+//@   invariant forall k int :: 0 <= k && k < $i ==> (slice[k] in seen) && seen[slice[k]]
+
+// ProcessQuery: the analysis lives in fresh memory; the three word lists are duplicate-free.
+//@ pure func noDup(s []string) bool = forall a, b int :: 0 <= a && a < b && b < len(s) ==> s[a] != s[b]
+//@ func (*QueryProcessor).ProcessQuery
+//@   ensures[C06.process-nodup] noDup(result.Keywords) && noDup(result.Actions) && noDup(result.Targets)
+//@   ensures[C06.process-original] result.Original == query
+//@ loop 1
+//@   invariant pq != nil && fresh(pq) && fresh(pq.Actions) && fresh(pq.Targets) && fresh(pq.Keywords) && pq.Original == query
